@@ -17,7 +17,7 @@ for src in sys.argv[1:]:
     ap = sh(f"git -C {wt} apply {src}/patch.diff")
     if ap.returncode != 0:
         print(name, "PATCH DOES NOT APPLY"); sh(f"git -C /repo worktree remove --force {wt}"); continue
-    tests = sh(f"cd {wt} && PYTHONPATH={wt} /venv/bin/python -m pytest -q -p no:cacheprovider --timeout=900 -x -q --deselect tests/test_benchmark.py::TestBenchmark::test_measure --deselect tests/test_exporter.py::TestPythonExporter::test_object 2>&1 | tail -1")
+    tests = sh(f"cd {wt} && flock /tmp/mut/pytest.lock env PYTHONPATH={wt} /venv/bin/python -m pytest -q -p no:cacheprovider --timeout=900 -x -q --deselect tests/test_benchmark.py::TestBenchmark::test_measure --deselect tests/test_exporter.py::TestPythonExporter::test_object 2>&1 | tail -1")
     d1 = sh(f"cd {wt} && PYTHONPATH={wt} timeout 600 /venv/bin/python {src}/demo.py")
     d0 = sh(f"cd /repo && PYTHONPATH=/repo timeout 600 /venv/bin/python {src}/demo.py")
     sh(f"git -C /repo worktree remove --force {wt}")
